@@ -249,10 +249,7 @@ func RunReloadBinaryCase(seed int64, bin, workDir string) *HistResult {
 	}
 	mk := func(name string, pipes []string, task string, extra string, limited int, delay time.Duration) version {
 		y := "pipelines:\n"
-		script := "true"
-		if strings.Contains(extra, "PXV_VER") {
-			script = "echo ver=$PXV_VER" // (the pipeline-level environment of this version, seen by a command)
-		}
+		script := "echo ver=$PXV_VER" // (the pipeline-level environment of this version, seen by a command; only B sets the variable)
 		for _, p := range pipes {
 			y += fmt.Sprintf("  %s:\n    concurrency: 5\n%s    tasks:\n      %s:\n        script: [\"%s\"]\n", p, extra, task, script)
 		}
@@ -505,12 +502,25 @@ func RunReloadBinaryCase(seed int64, bin, workDir string) *HistResult {
 		}
 		if !ok {
 			find("C17:edit-ignored-by-reload", "%s: SIGUSR1 was sent, but 10 s later the API still lists pipelines %v (file: %v) and a new job of 'main' has task %q (file: %q)", label, got, want, gotTask, next.task)
+			if cur.name == "B" || next.name == "B" {
+				// the ignored edit changes the pipeline-level environment: commands of later jobs get an environment that is
+				// in no file any more (seed C18-m)
+				res.Findings[len(res.Findings)-1].Props = append(append([]string(nil), reloadProps...), "C18")
+			}
 			break
 		}
-		if next.name == "B" {
-			// the commands of a job accepted after the reload see the pipeline-level environment of the NEW definition,
-			// in a pipeline that was changed ("main") and in one that the reload added ("second")
-			for _, p := range []string{"main", "second"} {
+		{
+			// the commands of a job accepted after the reload see the pipeline-level environment of the NEW definition
+			// (PXV_VER=B in version B, not set in every other version - also directly after B), in a pipeline that was
+			// changed ("main") and in one that the reload added ("second")
+			wantOut := "ver=\n"
+			if next.name == "B" {
+				wantOut = "ver=B\n"
+			}
+			for _, p := range next.pipes {
+				if p != "main" && p != "second" {
+					continue
+				}
 				id, code := schedule(p)
 				if code != 202 {
 					continue
@@ -524,10 +534,10 @@ func RunReloadBinaryCase(seed int64, bin, workDir string) *HistResult {
 					}
 					time.Sleep(10 * time.Millisecond)
 				}
-				res.sit("C18", fmt.Sprintf("pipeline-level environment of a definition that arrived through a reload (%s)", p))
+				res.sit("C18", fmt.Sprintf("pipeline-level environment of a definition that arrived through a reload (%s, %s->%s)", p, cur.name, next.name))
 				res.Evaluations["C18"]++
-				if out.Stdout != "ver=B\n" {
-					res.Findings = append(res.Findings, Finding{Props: []string{"C18", "C16"}, Sig: "C18:environment-of-reloaded-definition-not-in-force", Detail: fmt.Sprintf("%s: the files give pipeline %q the environment PXV_VER=B and the reload was applied, but the command of a job accepted afterwards printed %q (expected \"ver=B\\n\")", label, p, out.Stdout), Step: -1})
+				if out.Stdout != wantOut {
+					res.Findings = append(res.Findings, Finding{Props: []string{"C18", "C16"}, Sig: "C18:environment-of-reloaded-definition-not-in-force", Detail: fmt.Sprintf("%s: the reload was applied and the files give pipeline %q the environment of version %s, but the command of a job accepted afterwards printed %q (expected %q)", label, p, next.name, out.Stdout, wantOut), Step: -1})
 				}
 			}
 		}
